@@ -8,13 +8,13 @@ from .c19 import goal_eq
 from .unify_common import struct_eq
 
 ANCHORS = ['load_kb_from_file', 'read_facts_and_rules', 'strip_comments', 'separate_rules', 'check_last_char', 'parse_rule']
-WITNESSES = {'all': ['loaded-equal', 'line-breaks', 'comments', 'blank-lines', 'float-literal', 'infix-in-body']}
+WITNESSES = {'all': ['loaded-equal', 'line-breaks', 'comments', 'blank-lines', 'float-literal', 'infix-in-body', 'loaded-into-existing']}
 OPTS = {'quick': {'selfcheck_mod': 40, 'budget_s': 280, 'max_paths_per_case': 5000}, 'thorough': {'selfcheck_mod': 400, 'budget_s': 3000, 'max_paths_per_case': 20000}}
 STEP_LIMIT = 3_000_000
 BOUNDS = {
-    'quick': '13 programs of 1-4 rules (facts, names outside ASCII, conjunctions, disjunctions, lists, quoted atoms containing `, . #`, escaped commas, float literals and infix `= < + *` in bodies); '
+    'quick': '14 programs of 1-4 rules (facts, names outside ASCII, conjunctions, disjunctions, lists, quoted atoms containing `, . #`, escaped commas, float literals and infix `= < + *` in bodies); '
              'each rendered with a symbolic layout character (space or line feed, decided by the solver) after every documented continuation character `-` `,` `;` `=` outside '
-             'brackets (up to 8 per program: all 2^k layouts in one exploration), in 3 decorations: plain, with `#` / `%` / `//` comment lines and trailing comments, with blank lines and continuation lines indented by a space or a tab (also a solver variable; up to 4 break points); oracle: load returns an error, or format_kb and every stored rule equal those of parse_rule applied to each rule on one line',
+             'brackets (up to 8 per program: all 2^k layouts in one exploration), in 3 decorations: plain, with `#` / `%` / `//` comment lines and trailing comments, with blank lines and continuation lines indented by a space or a tab (also a solver variable; up to 4 break points); for the plain decoration the file is loaded a second time into the result (every list of rules doubled, in order); oracle: load returns an error, or format_kb and every stored rule equal those of parse_rule applied to each rule on one line',
     'thorough': '30 programs, layout characters also after commas inside parentheses and brackets (comments only where the running depth is 0)',
 }
 OUTSIDE = 'comments inside parentheses or brackets; line breaks at other places than after a continuation character; files that do not exist'
@@ -34,6 +34,7 @@ PROGRAMS = [
     ['c1($L) :- append(a, [b, c], $L), count($L, $N), $N >= 3.'],
     ['d1 :- p(a), q(b).', 'e1($X) :- $X = f(g(1, 2.5), [x, y | $T]).'],
     ['ville(Montréal, $P) :- größe($P, Δ), $P < 3.25.', 'é(ü).', '日本($X) :- 東京($X), $X = ß.'],
+    ['title(War  and  Peace, "a  b").', 'w2($X) :- $X = "tab\there", print(two  blanks, $X).'],
 ]
 MORE = [
     ['f1($X) :- $X = 1.0e3.'], ['g1($X, $Y) :- $Y = $X * 2.5, $Y > 1.'], ['h1([a, b, c]).', 'h1([]).', 'h1([$X]) :- p($X).'],
@@ -135,6 +136,16 @@ def run(drv, case):
     if t1 != t2:
         raise Violation('format-differs', '%s: format_kb differs' % desc)
     tags = ['loaded-equal']
+    if case['deco'] == 'plain':
+        # loading adds to what the knowledge base already holds: the same file loaded a second time into the result doubles every list of rules, in order
+        kb2, err2 = drv.loadkb(chars, into=kb)
+        if err2 is not None: raise Violation('second-load-rejected', '%s: loading the same file into the loaded knowledge base fails: %s' % (desc, str(err2)[:150]))
+        got2 = drv.dumpkb(kb2)
+        ok2 = len(got2) == len(want) and all(k1 == k2 and len(r2) == 2 * len(r1) and all(struct_eq(m, a[1], b[1]) and goal_eq(m, a[2], b[2]) for a, b in zip(r1 + r1, r2))
+                                              for (k1, r1), (k2, r2) in zip(want, got2))
+        if not ok2:
+            raise Violation('load-into-existing', '%s: loaded into a knowledge base that already holds these predicates, the rules are not appended in order' % desc)
+        tags.append('loaded-into-existing')
     if nb: tags.append('line-breaks')
     if case['deco'] == 'comments': tags.append('comments')
     if case['deco'] == 'blank': tags.append('blank-lines')
